@@ -113,10 +113,16 @@ type vhStored struct {
 //   2: one record at delta 1, record 0 compacted (lastOffsetDelta 1)
 //   3: one record at delta 0, tail compacted (lastOffsetDelta 2)  4: empty retained batch (count 0, lastOffsetDelta 2)
 //   5: one record at delta 0, exactly one offset compacted off the tail (lastOffsetDelta 1)
+// vhLogV2FirstShape >= 0 fixes the shape of the first batch (work split across items)
+var vhLogV2FirstShape = -1
+
 func vhLogV2(nb int, first int64) (wire []byte, stored []vhStored, next int64, firstBatchEnd int64) {
 	base := first
 	for b := 0; b < nb; b++ {
-		shape := vhChoose("batch_shape", 6)
+		shape := vhLogV2FirstShape
+		if b > 0 || shape < 0 {
+			shape = vhChoose("batch_shape", 6)
+		}
 		ts := int64(1600000000000 + 1000*b) // concrete: timestamp arithmetic is the subject of C05
 		mk := func(delta int64) (vhRec, vhStored) {
 			k := vhBytes("key", 1)
